@@ -6,3 +6,7 @@ OBLS.append(Obl('C12.sort.comparator.utf16/k5', ['C12', 'C02'], 'B(5)', 'c12/com
 OBLS.append(Obl('C12.sort.comparator.strict_weak_order/k3', ['C12', 'C02'], 'B(3)', 'c12/comparator.c', roots=['usp_sort'], defines=['STR_CAP=3', 'KEYN=3', 'ORDER_ONLY=1'], unwind=5,
                 solver='cadical', timeout=1800, bound='three arbitrary byte-string keys <= 3 bytes',
                 note='sort comparator is a strict weak ordering on arbitrary bytes (precondition of std::stable_sort)'))
+
+OBLS.append(Obl('C12.reset_initialize_append.size/b8', ['C12', 'C02'], 'B(8)', 'c12/list_size.c', roots=['usp_reset', 'usp_append', 'usp_size'], stub=['form_urlencoded_decode'], bufn=8, unwind=10,
+                defines=['STR_CAP=8', 'BUF_START=1'], includes=['spec/urlspec.h', 'spec/scan.h'], solver='cadical', timeout=1800, object_bits=12, bound='input <= 8 bytes; list abstracted to its size',
+                note='reset / initialize / append: number of pairs == the form-urlencoded parser\'s (one per non-empty sequence between &, one leading ? removed); reset forgets the old list'))
